@@ -105,25 +105,146 @@ Qed.
 Theorem listing_sorted l : StronglySorted le (sort_names l) /\ Permutation l (sort_names l).
 Proof. split; [|apply sort_names_perm]. induction l as [|x l IH]; cbn [sort_names fold_right]; [constructor|apply insert_n_sorted; exact IH]. Qed.
 
+(* ---- whole invocations (the dispatch of App.Run) ---- *)
+
+(* what runTasks can produce *)
+Lemma run_req_cases pick defs s f req s' ob : run_req pick defs s f req = (s', ob) ->
+  (ob_executed ob = [] /\ ob_exit ob = 1 /\ ob_stdout ob = SDNothing /\ exists e, ob_error ob = Some (ESelection e)) \/
+  (exists order e, rr_out DI (run_i (f_force f) (beh_of defs) s order) = RunErr e /\
+     ob_exit ob = 1 /\ ob_stdout ob = SDNothing /\ ob_error ob = Some (ERun e)) \/
+  (exists order rs, rr_out DI (run_i (f_force f) (beh_of defs) s order) = RunOk rs /\
+     ob = run_tasks_obs f (map (mk_res defs) rs) (rr_exec DI (run_i (f_force f) (beh_of defs) s order))).
+Proof.
+  unfold run_req. destruct (run_order pick _ req) as [order|e].
+  - match goal with |- context [run_i _ _ _ ?o] => set (otasks := o) end. destruct (rr_out DI (run_i (f_force f) (beh_of defs) s otasks)) as [rs|e] eqn:Eo; intros H; inversion H; subst.
+    + right. right. exists otasks, rs. split; [exact Eo|reflexivity].
+    + right. left. exists otasks, e. cbn. auto.
+  - intros H; inversion H; subst. left. cbn. eauto.
+Qed.
+
+(* what an invocation can be: a listing that runs nothing, or runTasks on some request *)
+Lemma invoke_cases pick defs vars s f req s' ob : invoke pick defs vars s f req = (s', ob) ->
+  (ob_executed ob = [] /\ ob_exit ob = 0 /\ ob_error ob = None /\ forall rs, ob_stdout ob <> SDJson rs) \/
+  (exists req', run_req pick defs s f req' = (s', ob)).
+Proof.
+  unfold invoke. intros H.
+  assert (L : forall d x, (forall rs, d <> SDJson rs) -> (x, {| ob_exit := 0; ob_error := None; ob_stdout := if f_quiet f || f_json f then SDNothing else d; ob_executed := [] |}) = (s', ob) ->
+     ob_executed ob = [] /\ ob_exit ob = 0 /\ ob_error ob = None /\ forall rs, ob_stdout ob <> SDJson rs).
+  { intros d x Hd E. inversion E; subst. cbn. repeat split. intros rs. destruct (f_quiet f || f_json f); [discriminate|apply Hd]. }
+  destruct (f_vars f); [left; eapply L; [|exact H]; discriminate|].
+  destruct (f_clean f).
+  { destruct (has_task defs clean_name); [right; eauto|left; eapply L; [|exact H]; discriminate]. }
+  destruct (f_show f); [left; eapply L; [|exact H]; discriminate|].
+  destruct req as [|r0 req].
+  - destruct (has_task defs default_name); [right; eauto|left; eapply L; [|exact H]; discriminate].
+  - right. eauto.
+Qed.
+
+Lemma mk_res_cmds defs r x : In x (tr_cmds (mk_res defs r)) ->
+  r_skipped r = false /\ exists d, find_def defs (r_task r) = Some d /\ In x (td_cmds d).
+Proof.
+  unfold mk_res. cbn [tr_cmds]. destruct (r_skipped r); [intros []|]. destruct (find_def defs (r_task r)) as [d|]; [|intros []].
+  intros H. split; [reflexivity|]. exists d. auto.
+Qed.
+
+Lemma in_unskipped n (rs : list result) : In n (map r_task (filter (fun r => negb (r_skipped r)) rs)) <->
+  exists r, In r rs /\ r_task r = n /\ r_skipped r = false.
+Proof.
+  rewrite in_map_iff. split.
+  - intros (r & E & Hr). apply filter_In in Hr. destruct Hr as [A B]. exists r. repeat split; auto. destruct (r_skipped r); [discriminate|reflexivity].
+  - intros (r & A & B & C). exists r. split; [exact B|]. apply filter_In. split; [exact A|]. rewrite C. reflexivity.
+Qed.
+
+(* C09 for a whole invocation, whatever the flags (--quiet, --json, --force, --clean with a task named clean, the default
+   task): if a task whose commands were run has a command with a non-zero status, the invocation exits 1; and unless the
+   run itself was cut short by an unreadable dependency or a runner error, the error names an executed task, one of its
+   commands and that command's non-zero status *)
+Theorem invocation_fails pick defs vars s f req s' ob n d :
+  invoke pick defs vars s f req = (s', ob) ->
+  In n (ob_executed ob) -> find_def defs n = Some d -> cmds_ok (td_cmds d) = false ->
+  ob_exit ob = 1 /\
+  ((exists e, ob_error ob = Some (ERun e)) \/
+   exists t c st d' x, ob_error ob = Some (ECommandFailed t c st) /\ st <> 0 /\ In t (ob_executed ob) /\
+     find_def defs t = Some d' /\ In x (td_cmds d') /\ c_cmd x = c /\ c_status x = st).
+Proof.
+  intros H Hin Hd Hbad. destruct (invoke_cases _ _ _ _ _ _ _ _ H) as [(E & _)|(req' & R)]; [rewrite E in Hin; destruct Hin|].
+  destruct (run_req_cases _ _ _ _ _ _ _ R) as [(E & _)|[(order & e & _ & Ex & _ & Er)|(order & rs & Eo & ->)]].
+  - rewrite E in Hin. destruct Hin.
+  - split; [exact Ex|left; eauto].
+  - pose proof (executed_are_the_unskipped DI deqb_i None digest_i (f_force f) (beh_of defs) s order rs Eo) as EX. fold run_i in EX.
+    assert (Hex : forall g a b, ob_executed (run_tasks_obs g a b) = b).
+    { intros g a b0. unfold run_tasks_obs. destruct (report a) as [ms [[[t c] s0]|]]; reflexivity. }
+    rewrite Hex in *. rewrite EX in Hin. apply in_unskipped in Hin. destruct Hin as (r & Hr & Hn & Hs).
+    assert (HF : has_failure (map (mk_res defs) rs)).
+    { apply cmds_ok_false in Hbad. destruct Hbad as (c & Hc & Hst). exists (mk_res defs r), c. split; [apply in_map; exact Hr|].
+      split; [|exact Hst]. unfold mk_res. cbn [tr_cmds]. rewrite Hs, Hn, Hd. exact Hc. }
+    split; [apply failing_command_fails; exact HF|]. right.
+    destruct (ob_error (run_tasks_obs f (map (mk_res defs) rs) (rr_exec DI (run_i (f_force f) (beh_of defs) s order)))) as [e|] eqn:Ee.
+    + destruct e as [t c st|e|e].
+      * destruct (failure_is_named _ _ _ _ _ _ Ee) as (Hst & r' & x & Hr' & Ht & Hx & Hc & Hs').
+        apply in_map_iff in Hr'. destruct Hr' as (r0 & <- & Hr0). destruct (mk_res_cmds _ _ _ Hx) as (Sk & d' & Hd' & Hxd).
+        cbn [mk_res tr_name] in Ht. exists t, c, st, d', x. rewrite <- Ht. repeat split; auto.
+        rewrite EX. apply in_unskipped. exists r0. auto.
+      * exfalso. unfold run_tasks_obs in Ee. destruct (report (map (mk_res defs) rs)) as [ms [[[t c] s0]|]]; cbn in Ee; discriminate.
+      * exfalso. unfold run_tasks_obs in Ee. destruct (report (map (mk_res defs) rs)) as [ms [[[t c] s0]|]]; cbn in Ee; discriminate.
+    + exfalso. apply failing_command_fails with (f := f) (ex := rr_exec DI (run_i (f_force f) (beh_of defs) s order)) in HF.
+      unfold run_tasks_obs in *. destruct (report (map (mk_res defs) rs)) as [ms [[[t c] s0]|]]; cbn in *; discriminate.
+Qed.
+
+(* C14 for a whole invocation: under --force no task of the run is reported skipped, whether the tasks were named, come
+   from the default task or from --clean with a task named clean *)
+Theorem forced_invocation pick defs vars s f req s' ob rs :
+  invoke pick defs vars s f req = (s', ob) -> f_force f = true -> ob_stdout ob = SDJson rs ->
+  (forall r, In r rs -> tr_skipped r = false) /\ ob_executed ob = map tr_name rs.
+Proof.
+  intros H Hf HS. destruct (invoke_cases _ _ _ _ _ _ _ _ H) as [(_ & _ & _ & N)|(req' & R)]; [exfalso; exact (N rs HS)|].
+  destruct (run_req_cases _ _ _ _ _ _ _ R) as [(_ & _ & E & _)|[(order & e & _ & _ & E & _)|(order & rs0 & Eo & ->)]]; try congruence.
+  rewrite Hf in Eo. destruct (force_runs_everything DI deqb_i None digest_i deqb_i_spec digest_i_ne (beh_of defs) s order rs0 Eo) as [A B].
+  fold run_i in B. pose proof (run_results_names DI deqb_i None digest_i true (beh_of defs) s order rs0 Eo) as Nn.
+  unfold run_tasks_obs in *. destruct (report (map (mk_res defs) rs0)) as [ms [[[t c] s0]|]]; cbn [ob_stdout ob_executed] in *.
+  - destruct (visible f); discriminate.
+  - destruct (f_json f); [|destruct (visible f); discriminate]. inversion HS; subst rs. rewrite Hf. split.
+    + intros r Hr. apply in_map_iff in Hr. destruct Hr as (r0 & <- & Hr0). cbn [mk_res tr_skipped]. apply A. exact Hr0.
+    + rewrite B, map_map. cbn [mk_res tr_name]. symmetry. exact Nn.
+Qed.
+
+(* C20: --vars lists every variable once with its value, sorted by name *)
+Lemma insert_v_perm x l : Permutation (x :: l) (insert_v x l).
+Proof. induction l as [|y l IH]; cbn [insert_v]; [reflexivity|]. match goal with |- context [if ?c then _ else _] => destruct c end; [reflexivity|]. rewrite perm_swap. constructor. exact IH. Qed.
+Lemma sort_vars_perm l : Permutation l (sort_vars l).
+Proof. induction l as [|x l IH]; cbn [sort_vars fold_right]; [reflexivity|]. etransitivity; [|apply insert_v_perm]. constructor. exact IH. Qed.
+Lemma insert_v_sorted x l : StronglySorted (fun a b => fst a <= fst b) l -> StronglySorted (fun a b => fst a <= fst b) (insert_v x l).
+Proof.
+  induction 1 as [|y l Hs IH Hy]; cbn [insert_v]; [repeat constructor|].
+  match goal with |- context [if ?c then _ else _] => destruct c eqn:E end.
+  - apply Nat.leb_le in E. constructor; [constructor; assumption|]. constructor; [exact E|].
+    eapply Forall_impl; [|exact Hy]. intros z Hz. cbn beta in *. exact (Nat.le_trans _ _ _ E Hz).
+  - apply Nat.leb_gt in E. constructor; [exact IH|].
+    eapply Permutation_Forall; [apply insert_v_perm|]. constructor; [cbn beta; exact (Nat.lt_le_incl _ _ E)|exact Hy].
+Qed.
+Theorem vars_listing pick defs vars s f req :
+  f_vars f = true -> f_quiet f = false -> f_json f = false ->
+  invoke pick defs vars s f req = (s, {| ob_exit := 0; ob_error := None; ob_stdout := SDVars (sort_vars vars); ob_executed := [] |})
+  /\ Permutation vars (sort_vars vars) /\ StronglySorted (fun a b => fst a <= fst b) (sort_vars vars).
+Proof.
+  intros V Q J. unfold invoke. rewrite V, Q, J. cbn [orb]. split; [reflexivity|]. split; [apply sort_vars_perm|].
+  induction vars as [|x l IH]; cbn [sort_vars fold_right]; [constructor|apply insert_v_sorted; exact IH].
+Qed.
+
 (* C20: the JSON document lists exactly the tasks of the run in execution order, executed commands for the ones that ran *)
-Theorem json_lists_the_run pick defs s f req s' ob rs :
-  invoke pick defs s f req = (s', ob) -> ob_stdout ob = SDJson rs ->
+Theorem json_lists_the_run pick defs vars s f req s' ob rs :
+  invoke pick defs vars s f req = (s', ob) -> ob_stdout ob = SDJson rs ->
   ob_exit ob = 0 /\ exists order, map tr_name rs = order /\
     (forall r, In r rs -> tr_skipped r = true -> tr_cmds r = []) /\ ~ has_failure rs.
 Proof.
-  unfold invoke. intros H HS.
-  destruct (f_show f).
-  { inversion H; subst. cbn [ob_stdout] in HS. destruct (f_quiet f || f_json f); discriminate. }
-  set (req' := match req with [] => _ | _ => req end) in H. destruct req' as [|r0 req'].
-  { inversion H; subst. cbn [ob_stdout] in HS. destruct (f_quiet f || f_json f); discriminate. }
-  destruct (run_order pick _ (r0 :: req')) as [order|e]; [|inversion H; subst; discriminate].
-  destruct (rr_out DI (run_i (f_force f) (beh_of defs) s _)) as [rs0|e] eqn:Eo; [|inversion H; subst; discriminate].
-  inversion H; subst ob. clear H. unfold run_tasks_obs in *.
-  pose proof (report_spec (map (mk_res defs) rs0)) as R. destruct (report (map (mk_res defs) rs0)) as [ms bad]. cbn [snd] in R.
+  intros H HS. destruct (invoke_cases _ _ _ _ _ _ _ _ H) as [(_ & _ & _ & N)|(req' & R)]; [exfalso; exact (N rs HS)|].
+  destruct (run_req_cases _ _ _ _ _ _ _ R) as [(_ & _ & E & _)|[(order & e & _ & _ & E & _)|(order & rs0 & Eo & ->)]]; try congruence.
+  unfold run_tasks_obs in *.
+  pose proof (report_spec (map (mk_res defs) rs0)) as Rp. destruct (report (map (mk_res defs) rs0)) as [ms bad]. cbn [snd] in Rp.
   destruct bad as [[[t c] s0]|]; cbn [ob_stdout ob_exit] in *.
   - destruct (visible f); discriminate.
   - destruct (f_json f); [|destruct (visible f); discriminate]. inversion HS; subst rs. split; [reflexivity|].
     exists (map tr_name (map (mk_res defs) rs0)). split; [reflexivity|]. split.
     + intros r Hr Sk. apply in_map_iff in Hr. destruct Hr as (r1 & <- & _). unfold mk_res in *. cbn [tr_skipped tr_cmds] in *. rewrite Sk. reflexivity.
-    + apply forallb_res_ok. exact R.
+    + apply forallb_res_ok. exact Rp.
 Qed.
